@@ -105,8 +105,11 @@ VARIANTS = variants()
 TREE = {'f1': bytes(range(100)), 'sub/f2': b'tail-' * 9, 'e': b''}
 
 
-def try_settings(settings, password=b'pw', long_password=False):
-    """-> (accepted: bool, problem: None | (stage, err))."""
+def try_settings(settings, password=b'pw', long_password=False, prior=None):
+    """-> (accepted: bool, problem: None | (stage, err)).
+    prior: settings of ANOTHER repository that the same user creates and uses, with the same cache directory, between
+    the init of this one and its first use by a fresh process
+    (the cache directory is per user, not per repository)."""
     sc = H.worker_scratch()
     root = sc.sub()
     W.write_tree(root / 'src', TREE)
@@ -114,9 +117,28 @@ def try_settings(settings, password=b'pw', long_password=False):
     W.set_random('c17')
     W.set_clock()
     res = {}
+    cache = None
+    if prior is not None:
+        cache = root / 'cache'
+        st0 = W.Store()
+
+        async def other():
+            r0 = W.make_repo(st0, N=2, cache=cache)
+            with W.captured():
+                k0 = await r0.init(password=b'other-pw', settings=copy.deepcopy(prior))
+                await r0.close()
+            u0 = W.User('o', b'other-pw', r0.serialize(k0.key)) if k0.key is not None else None
+            r0 = await W.a_open(st0, u0, N=2, cache=cache)
+            with W.captured():
+                await r0.snapshot(paths=[root / 'src'])
+                await r0.list_snapshots()
+                await r0.close()
+
+    def _mk(store, N=2):
+        return W.make_repo(store, N=N, cache=cache)
 
     async def do_init():
-        repo = W.make_repo(st, N=2)
+        repo = _mk(st)
         with W.captured():
             r = await repo.init(password=password, settings=copy.deepcopy(settings))
             await repo.close()
@@ -134,17 +156,24 @@ def try_settings(settings, password=b'pw', long_password=False):
         return False, None
     user = W.User('u', password, key) if key else None
     target = root / 'out'
+    if prior is not None:
+        # ... and in between the user creates and uses another repository with the same cache directory
+        try:
+            W.run(other)
+        except Exception as e:
+            shutil.rmtree(root, ignore_errors=True)
+            return True, ('accepted-but-unusable', f'other repository with the same cache directory: {type(e).__name__}: {str(e)[:100]}')
     stage = 'unlock'
     try:
         async def use():
             nonlocal stage
-            repo = await W.a_open(W.Store.__new__(W.Store) if False else st, user, N=2)
+            repo = await W.a_open(st, user, N=2, cache=cache)
             stage = 'snapshot'
             with W.captured():
                 await repo.snapshot(paths=[root / 'src'])
                 await repo.close()
             stage = 'unlock-2'
-            repo = await W.a_open(st, user, N=2)
+            repo = await W.a_open(st, user, N=2, cache=cache)
             stage = 'restore'
             with W.captured():
                 await repo.restore(path=target)
@@ -162,7 +191,7 @@ def try_settings(settings, password=b'pw', long_password=False):
                 wrongs.append(password[:64] + b'#' * (len(password) - 64))
             for wp in wrongs:
                 async def wrong():
-                    repo = W.make_repo(st, N=2)
+                    repo = _mk(st)
                     with W.captured():
                         await repo.unlock(password=wp, key=key)
                 try:
@@ -192,17 +221,24 @@ def apply_variants(idxs):
 LONG_PW = b'a-very-long-passphrase-' * 4   # 92 bytes: longer than a BLAKE2b key
 
 
+PRIORS = {'prior-default': DEFAULT, 'prior-unencrypted': {'encryption': None}}
+
+
 def run_case(idxs):
     long_pw = bool(idxs) and idxs[-1] == 'long'
-    if long_pw:
+    prior = None
+    if idxs and isinstance(idxs[-1], str) and idxs[-1].startswith('prior-'):
+        prior = idxs[-1]
+    full = idxs
+    if long_pw or prior:
         idxs = idxs[:-1]
     s = apply_variants(idxs)
     if s is None:
-        return idxs, None, None
-    accepted, problem = try_settings(s, password=LONG_PW if long_pw else b'pw')
+        return full, None, None
+    accepted, problem = try_settings(s, password=LONG_PW if long_pw else b'pw', prior=PRIORS[prior] if prior else None)
     if long_pw and problem:
         problem = (problem[0] + '(long password)', problem[1])
-    return idxs, accepted, problem
+    return full, accepted, problem
 
 
 # ---- add-key settings
@@ -334,6 +370,8 @@ def main():
     t = common.tier()
     chk = common.Check(PID, 'exploration')
     singles = [(i,) for i in range(len(VARIANTS))] + [(i, 'long') for i, v in enumerate(VARIANTS) if v[0] in ('kdf', 'cipher')]
+    # the user's cache directory has served another repository with other settings before
+    singles += [(i, pr) for i, v in enumerate(VARIANTS) if v[0] in ('hashing', 'cipher', 'chunking') for pr in PRIORS][::(3 if t == 'quick' else 1)]
     failing_single = {}
     accepted_single = {}
     n = acc = rej = 0
@@ -347,9 +385,13 @@ def main():
             accepted_single[idxs[0]] = bool(accepted)
         if problem:
             sec, label, _ = VARIANTS[idxs[0]]
-            failing_single[idxs[0]] = problem[0]
-            chk.violation({'section': sec, 'deviation': label, 'outcome': problem[0]},
-                          {'deviations': [f'{sec}:{label}'], 'detail': problem[1], 'settings': apply_variants(idxs)})
+            if len(idxs) == 1:
+                failing_single[idxs[0]] = problem[0]
+            sig = {'section': sec, 'deviation': label, 'outcome': problem[0]}
+            if isinstance(idxs[-1], str) and idxs[-1].startswith('prior-'):
+                sig['cache_directory'] = 'shared-with-another-repository'
+            chk.violation(sig, {'deviations': [f'{sec}:{label}'] + [x for x in idxs[1:] if isinstance(x, str)], 'detail': problem[1],
+                                'settings': apply_variants([x for x in idxs if not isinstance(x, str)])})
     # pairs of deviations in different sections
     pairs = []
     for i, j in itertools.combinations(range(len(VARIANTS)), 2):
